@@ -1800,6 +1800,107 @@ Proof.
 Qed.
 
 (* ------------------------------------------------------------------ *)
+(* the sizes the front end announces: file k receives exactly the bytes handed to append *)
+(* ------------------------------------------------------------------ *)
+Lemma fe_append_loop_sz bs k : forall fuel f data f' evs,
+  fe_append_loop fuel bs f data = Ok (f', evs) ->
+  fe_ino f' = fe_ino f /\ forall a, fold_left (sz_ev k) evs a = a.
+Proof.
+  induction fuel as [|n IH]; intros f data f' evs H; [discriminate H|].
+  cbn [fe_append_loop] in H. destruct data as [|d0 data'].
+  { inversion H; subst. split; reflexivity. }
+  destruct (fe_cur f) as [cur|].
+  - destruct (bs - len (b_data cur) =? 0).
+    + match type of H with context [fe_append_loop n bs ?g ?x] =>
+        destruct (fe_append_loop n bs g x) as [[f1 e1]| | |] eqn:E1; try discriminate H;
+        destruct (IH g x f1 e1 E1) as (A & B) end.
+      inversion H; subst. split; [exact A|]. intro a. cbn [fold_left sz_ev]. apply B.
+    + destruct (IH _ _ _ _ H) as (A & B). split; [exact A|exact B].
+  - match type of H with context [fe_append_loop n bs ?g ?x] =>
+      destruct (fe_append_loop n bs g x) as [[f1 e1]| | |] eqn:E1; try discriminate H;
+      destruct (IH g x f1 e1 E1) as (A & B) end.
+    inversion H; subst. split; [exact A|]. intro a. cbn [fold_left sz_ev]. apply B.
+Qed.
+
+Lemma fe_append_sz bs k f data f' evs :
+  fe_append bs f data = Ok (f', evs) ->
+  fe_ino f' = fe_ino f /\
+  forall a, fold_left (sz_ev k) evs a = if k =? fe_ino f then a + len data else a.
+Proof.
+  unfold fe_append. intro H. destruct (negb (fe_begin f)); [discriminate H|].
+  destruct (fe_append_loop (3 * length data + 3) bs f data) as [[f1 e1]| | |] eqn:E1; try discriminate H.
+  destruct (fe_append_loop_sz bs k _ _ _ _ _ E1) as (A & B).
+  destruct (fe_cur f1) as [cur|]; [|discriminate H].
+  destruct (len (b_data cur) =? bs); inversion H; subst; (split; [exact A|]); intro a; cbn [fold_left sz_ev].
+  - rewrite fold_left_app, B. reflexivity.
+  - apply B.
+Qed.
+
+Lemma fe_appends_sz bs k : forall chunks f f' evs,
+  fe_appends bs f chunks = Ok (f', evs) ->
+  fe_ino f' = fe_ino f /\
+  forall a, fold_left (sz_ev k) evs a = if k =? fe_ino f then a + len (concat chunks) else a.
+Proof.
+  induction chunks as [|c r IH]; intros f f' evs H; cbn [fe_appends] in H.
+  - inversion H; subst. split; [reflexivity|]. intro a. cbn [fold_left concat]. rewrite len_nil.
+    destruct (k =? fe_ino f'); [lia|reflexivity].
+  - destruct (fe_append bs f c) as [[f1 e1]| | |] eqn:E1; try discriminate H.
+    destruct (fe_appends bs f1 r) as [[f2 e2]| | |] eqn:E2; try discriminate H.
+    inversion H; subst.
+    destruct (fe_append_sz bs k _ _ _ _ E1) as (A1 & B1). destruct (IH _ _ _ E2) as (A2 & B2).
+    split; [congruence|]. intro a. rewrite fold_left_app, B1, B2, A1. cbn [concat]. rewrite len_app.
+    destruct (k =? fe_ino f); [lia|reflexivity].
+Qed.
+
+Lemma fe_file_sz bs k f ino fl f' evs :
+  fe_file bs f ino fl = Ok (f', evs) ->
+  forall a, fold_left (sz_ev k) evs a = if k =? ino then a + len (concat (snd fl)) else a.
+Proof.
+  intro H. destruct fl as [uf chunks]. cbn [fst snd] in *.
+  unfold fe_file, fe_begin_file in H. cbn [fst snd] in H.
+  destruct (fe_begin f); [discriminate H|].
+  destruct (negb (N.ldiff uf c_SQFS_BLK_USER_SETTABLE_FLAGS =? 0)); [discriminate H|].
+  match type of H with context [fe_appends bs ?g chunks] =>
+    destruct (fe_appends bs g chunks) as [[f2 e2]| | |] eqn:E2; try discriminate H;
+    destruct (fe_appends_sz bs k _ _ _ _ E2) as (_ & B) end.
+  cbn [fe_ino] in B.
+  destruct (fe_end_file f2) as [[f3 e3]| | |] eqn:E3; try discriminate H.
+  inversion H; subst. intro a. cbn [app fold_left sz_ev]. rewrite fold_left_app, B.
+  assert (E : forall x, fold_left (sz_ev k) e3 x = x).
+  { unfold fe_end_file in E3. destruct (negb (fe_begin f2)); [discriminate E3|].
+    destruct (fe_cur f2) as [cur|].
+    - destruct (getf DF (fe_flags f2)); [inversion E3; reflexivity|].
+      destruct (negb (getf FIRST (b_fl cur))); inversion E3; reflexivity.
+    - destruct (negb (getf FIRST (fe_flags f2))); inversion E3; reflexivity. }
+  apply E.
+Qed.
+
+(* bytes handed to append for file number k *)
+Definition file_bytes (files : list file) (k : N) : N :=
+  match nth_error files (N.to_nat k) with Some fl => len (concat (snd fl)) | None => 0 end.
+
+Lemma fe_files_sz bs k : forall fls f ino f' evs a,
+  fe_files bs f ino fls = Ok (f', evs) ->
+  fold_left (sz_ev k) evs a = a + (if ino <=? k then file_bytes fls (k - ino) else 0).
+Proof.
+  induction fls as [|fl fls IH]; intros f ino f' evs a H; cbn [fe_files] in H.
+  - inversion H; subst. cbn [fold_left]. unfold file_bytes. destruct (N.to_nat (k - ino)); cbn [nth_error];
+      destruct (ino <=? k); lia.
+  - destruct (fe_file bs f ino fl) as [[f1 e1]| | |] eqn:E1; try discriminate H.
+    destruct (fe_files bs f1 (ino + 1) fls) as [[f2 e2]| | |] eqn:E2; try discriminate H.
+    inversion H; subst. rewrite fold_left_app, (fe_file_sz bs k _ _ _ _ _ E1), (IH _ _ _ _ _ E2).
+    unfold file_bytes.
+    destruct (k =? ino) eqn:Ek.
+    + apply N.eqb_eq in Ek. subst k.
+      assert (E3 : (ino + 1 <=? ino) = false) by (apply N.leb_gt; lia).
+      rewrite E3, N.leb_refl, N.sub_diag. cbn [N.to_nat nth_error]. lia.
+    + apply N.eqb_neq in Ek. destruct (ino <=? k) eqn:El.
+      * apply N.leb_le in El. assert (E3 : (ino + 1 <=? k) = true) by (apply N.leb_le; lia). rewrite E3.
+        replace (N.to_nat (k - ino)) with (S (N.to_nat (k - (ino + 1)))) by lia. cbn [nth_error]. reflexivity.
+      * apply N.leb_gt in El. assert (E3 : (ino + 1 <=? k) = false) by (apply N.leb_gt; lia). rewrite E3. reflexivity.
+Qed.
+
+(* ------------------------------------------------------------------ *)
 (* the whole run                                                       *)
 (* ------------------------------------------------------------------ *)
 Section Run.
@@ -1852,6 +1953,18 @@ Lemma spec_inodes_type ht0 files k :
   Jino (spec_inodes hash compress HT ht_search ht_insert BW bw_write bs ht0 bw0 files k).
 Proof.
   unfold spec_inodes. destruct (fe_files bs fe_init 0 files) as [[f evs]| | |]; reflexivity.
+Qed.
+
+(* ... and its file size is the number of bytes handed to append for that file *)
+Lemma spec_inodes_size ht0 files k :
+  0 < bs -> Forall file_ok files ->
+  i_size (spec_inodes hash compress HT ht_search ht_insert BW bw_write bs ht0 bw0 files k) = file_bytes files k.
+Proof.
+  intros Hbs Hf. unfold spec_inodes.
+  destruct (fe_files_ok bs Hbs files fe_init 0 eq_refl eq_refl Hf) as (f' & evs & E1 & _).
+  rewrite E1. unfold ino_canon. cbn [i_size]. unfold size_canon.
+  rewrite (fe_files_sz bs k _ _ _ _ _ 0 E1), N.sub_0_r.
+  assert (E : (0 <=? k) = true) by (apply N.leb_le; lia). rewrite E. apply N.add_0_l.
 Qed.
 
 Theorem run_refines_spec p0 ht0 files :
